@@ -18,7 +18,7 @@ import (
 type scenario struct {
 	name  string
 	setup func(e *testEnv) (reqSpec, *browser) // builds the request to fault (fresh state each time)
-	ops   []string                              // store/lock ops this scenario performs, in order
+	ops   []string                             // store/lock ops this scenario performs, in order
 }
 
 func (e *testEnv) registerRT(rt string, u idpUser) {
@@ -247,6 +247,45 @@ func init() {
 					}
 				}
 			}
+			// Redis-level faults: the command itself is answered with an error, so the repository's own
+			// redis store / lock / ticket code runs on the failure (not only the code above the store interface)
+			if redis {
+				for _, sc := range storeScenarios(u) {
+					for _, cmd := range []string{"GET", "SET", "DEL", "EVALSHA", "PING", "EXISTS"} {
+						rs, _ := sc.setup(e)
+						e.redisFault = map[string]string{cmd: "before"}
+						if cmd == "EVALSHA" {
+							e.redisFault["EVAL"] = "before" // redislock falls back to EVAL on NOSCRIPT
+						}
+						v, real := e.serveCase(rs, nil, "redisfault:"+cmd)
+						hit := len(e.redisFault) == 0 || (cmd == "EVALSHA" && len(e.redisFault) < 2)
+						e.redisFault = nil
+						if v == nil {
+							continue
+						}
+						c.casen(fmt.Sprintf("c13r|%s|%s", sc.name, cmd), sc.name+" redis "+cmd+" fails => "+real)
+						if !hit {
+							c.count("redisfault:not-reached")
+							continue
+						}
+						c.count("redisfault:hit")
+						input := map[string]interface{}{"scenario": sc.name, "redis_command_failed": cmd, "response": real}
+						switch {
+						case cmd == "SET" && sc.name == "refresh" && len(v.Hits) > 0:
+							c.known("C13", "C13-refresh-save-failure-served", "refresh succeeded, Redis SET failed, request forwarded")
+						case (cmd == "GET" || cmd == "EVALSHA") && len(v.Hits) > 0:
+							c.violation("C13", "request forwarded as authenticated although the Redis "+cmd+" of its session/lock failed", input)
+						case cmd == "SET" && hasSessionSet(v, e.opts.Cookie.Name) && sc.name == "login":
+							c.violation("C13", "session cookie handed out although the Redis write failed", input)
+						case cmd == "DEL" && sc.name == "signout" && v.Status == 302:
+							c.violation("C13", "sign-out reported success although the Redis delete failed", input)
+						case cmd == "PING" && sc.name == "readiness" && v.Status == 200:
+							c.violation("C13", "readiness endpoint reports ready although the Redis PING failed", input)
+						}
+						e.mr.FlushAll()
+					}
+				}
+			}
 			// readiness against a store that accepts the connection but never answers
 			{
 				rs := reqSpec{Target: "/ready"}
@@ -266,7 +305,7 @@ func init() {
 			}
 			e.close()
 		}
-		c.close([]string{"c13:faulted", "c13:no-fault", "serve:storefault:refresh", "serve:storedata:trunc5", "kind:notReady", "kind:errorPage"})
+		c.close([]string{"c13:faulted", "c13:no-fault", "serve:storefault:refresh", "serve:storedata:trunc5", "kind:notReady", "kind:errorPage", "redisfault:hit"})
 	})
 
 	registerSuite("idpfaults", func(c *suiteCtx) {
@@ -278,8 +317,16 @@ func init() {
 		hj := func(w http.ResponseWriter) { w.Header().Set("Content-Type", "application/json") }
 		kinds := []respKind{
 			{"500", func(w http.ResponseWriter, r *http.Request) { w.WriteHeader(500); w.Write([]byte("boom")) }},
-			{"503-json", func(w http.ResponseWriter, r *http.Request) { hj(w); w.WriteHeader(503); w.Write([]byte(`{"error":"x"}`)) }},
-			{"400", func(w http.ResponseWriter, r *http.Request) { hj(w); w.WriteHeader(400); w.Write([]byte(`{"error":"invalid_grant"}`)) }},
+			{"503-json", func(w http.ResponseWriter, r *http.Request) {
+				hj(w)
+				w.WriteHeader(503)
+				w.Write([]byte(`{"error":"x"}`))
+			}},
+			{"400", func(w http.ResponseWriter, r *http.Request) {
+				hj(w)
+				w.WriteHeader(400)
+				w.Write([]byte(`{"error":"invalid_grant"}`))
+			}},
 			{"404", func(w http.ResponseWriter, r *http.Request) { w.WriteHeader(404) }},
 			{"reset", func(w http.ResponseWriter, r *http.Request) {
 				if hjk, ok := w.(http.Hijacker); ok {
@@ -293,11 +340,26 @@ func init() {
 			{"empty", func(w http.ResponseWriter, r *http.Request) { hj(w); w.WriteHeader(200) }},
 			{"truncated-json", func(w http.ResponseWriter, r *http.Request) { hj(w); w.Write([]byte(`{"access_token":"at","id_tok`)) }},
 			{"non-json", func(w http.ResponseWriter, r *http.Request) { w.Write([]byte("<html>oops</html>")) }},
-			{"no-id-token", func(w http.ResponseWriter, r *http.Request) { hj(w); w.Write([]byte(`{"access_token":"at","token_type":"Bearer","expires_in":3600}`)) }},
-			{"no-access-token", func(w http.ResponseWriter, r *http.Request) { hj(w); w.Write([]byte(`{"token_type":"Bearer","expires_in":3600}`)) }},
-			{"garbage-id-token", func(w http.ResponseWriter, r *http.Request) { hj(w); w.Write([]byte(`{"access_token":"at","token_type":"Bearer","id_token":"abc.def.ghi"}`)) }},
-			{"wrong-types", func(w http.ResponseWriter, r *http.Request) { hj(w); w.Write([]byte(`{"access_token":123,"token_type":{},"id_token":[1,2],"expires_in":"soon"}`)) }},
-			{"oversized", func(w http.ResponseWriter, r *http.Request) { hj(w); w.Write([]byte(`{"access_token":"` + strings.Repeat("A", 5<<20) + `"}`)) }},
+			{"no-id-token", func(w http.ResponseWriter, r *http.Request) {
+				hj(w)
+				w.Write([]byte(`{"access_token":"at","token_type":"Bearer","expires_in":3600}`))
+			}},
+			{"no-access-token", func(w http.ResponseWriter, r *http.Request) {
+				hj(w)
+				w.Write([]byte(`{"token_type":"Bearer","expires_in":3600}`))
+			}},
+			{"garbage-id-token", func(w http.ResponseWriter, r *http.Request) {
+				hj(w)
+				w.Write([]byte(`{"access_token":"at","token_type":"Bearer","id_token":"abc.def.ghi"}`))
+			}},
+			{"wrong-types", func(w http.ResponseWriter, r *http.Request) {
+				hj(w)
+				w.Write([]byte(`{"access_token":123,"token_type":{},"id_token":[1,2],"expires_in":"soon"}`))
+			}},
+			{"oversized", func(w http.ResponseWriter, r *http.Request) {
+				hj(w)
+				w.Write([]byte(`{"access_token":"` + strings.Repeat("A", 5<<20) + `"}`))
+			}},
 		}
 		claimFaults := []struct {
 			name string
